@@ -644,7 +644,7 @@ def run_check(mod, tier, seed):
         events, stats = run_matrix(work, tus, cfgs, seed,
                                    compile_timeout=getattr(mod, 'COMPILE_TIMEOUT', 1200),
                                    case_timeout=getattr(mod, 'CASE_TIMEOUT', 60 if tier == 'quick' else 300), log=log,
-                                   max_jobs=(int(os.environ.get('VERIF_MAXJOBS', getattr(mod, 'THOROUGH_MAXJOBS', 600))) if tier != 'quick' else None))
+                                   max_jobs=(int(os.environ.get('VERIF_MAXJOBS', getattr(mod, 'THOROUGH_MAXJOBS', 320))) if tier != 'quick' else None))
         # hang confirmation: re-run is folded into `inconclusive` (never a violation by itself)
         findings = load_findings()
         res = judge(prop, events, findings, mod)
